@@ -385,6 +385,7 @@ def literal_plumbing(ctx):
     callees = []
     from ..inventory import KNOWN
     # the function, the closures written in it and the helpers introduced after the reference tree that it calls
+    ctor = ctor_path(cr)
     units, seen = [fn], set()
     while units:
         f_ = units.pop()
@@ -395,11 +396,10 @@ def literal_plumbing(ctx):
         for bb, c, args, dest, tgt, line, exp in f_.calls():
             nm = c.get('resolved') or c.get('callee')
             if nm and nm.startswith('smt_strings::'):
-                if nm not in KNOWN and cr.fn(nm) is not None:
+                if nm not in KNOWN and cr.fn(nm) is not None and nm != ctor:
                     units.append(cr.fn(nm))
                 else:
                     callees.append(nm)
-    ctor = ctor_path(cr)
     okset = set(callees) <= {ctor, PA + '::accept', PA + '::flush_pending', 'smt_strings::SmtString::make'}
     need = all(n in callees for n in (ctor, PA + '::accept', PA + '::flush_pending', 'smt_strings::SmtString::make'))
     ctx.obligation(okset and need)
